@@ -91,6 +91,11 @@ func merge(fieldPath string, destination, lastApplied, desired interface{}) (int
 		if !ok && desVal != nil {
 			return nil, fmt.Errorf("desired%s: expecting map[string]interface, got %T", fieldPath, desired)
 		}
+		if !ok && desired != nil {
+			// The check above looks at the converted value, which is always nil when
+			// the conversion failed: report the clash instead of dropping desired.
+			return nil, fmt.Errorf("desired%s: expecting map[string]interface, got %T", fieldPath, desired)
+		}
 		return mergeObject(fieldPath, destVal, lastVal, desVal)
 	case []interface{}:
 		// destination is an array.
@@ -101,6 +106,10 @@ func merge(fieldPath string, destination, lastApplied, desired interface{}) (int
 		}
 		desVal, ok := desired.([]interface{})
 		if !ok && desVal != nil {
+			return nil, fmt.Errorf("desired%s: expecting []interface, got %T", fieldPath, desired)
+		}
+		if !ok && desired != nil {
+			// See above: a non-array desired value must not silently empty the array.
 			return nil, fmt.Errorf("desired%s: expecting []interface, got %T", fieldPath, desired)
 		}
 		return mergeArray(fieldPath, destVal, lastVal, desVal)
